@@ -110,7 +110,7 @@ class World(object):
                 def _mpmath_(self, prec, rounding):
                     return val
             return UserNumber()
-        if t in ('mpf', 'mpc') and spec.get('owner') in self.actors and spec['owner'] != actor:
+        if t in ('mpf', 'mpc', 'list', 'tuple', 'matrix') and spec.get('owner') in self.actors and spec['owner'] != actor:
             # a number that belongs to another context handed to this one (C38: the receiving
             # context must compute with it as with its own number of the same value)
             self.stats['foreign_operands'] = self.stats.get('foreign_operands', 0) + 1
